@@ -77,6 +77,47 @@ CHECK_DEADLOCK FALSE
 """)
 
 
+# receive() racing with the registry API: Begin / Send / Remove with up to Inner control actions per window
+CONC_CFG = {
+    "quick": [
+        ("L2/len6/inner1", dict(Ls="{1, 2}", Ssrcs="{1, 2}", Pts="{1}", Mids="{1}", Rids="{1}", Ext="ExtBoth",
+                                MaxLen=6, Inner=1)),
+    ],
+    "thorough": [
+        ("L2/len7/inner2", dict(Ls="{1, 2}", Ssrcs="{1, 2}", Pts="{1}", Mids="{1}", Rids="{1}", Ext="ExtBoth",
+                                MaxLen=7, Inner=2)),
+        ("L2/wide/len6", dict(Ls="{1, 2}", Ssrcs="{1, 2}", Pts="{1, 2}", Mids="{1, 2}", Rids="{1}", Ext="ExtBoth",
+                              MaxLen=6, Inner=1)),
+        ("L3/len5/inner1", dict(Ls="{1, 2, 3}", Ssrcs="{1, 2}", Pts="{1}", Mids="{1}", Rids="{1}", Ext="ExtBoth",
+                                MaxLen=5, Inner=1, Extras='{"full"}')),
+    ],
+}
+
+CONC_PROPS = "ConcAtMostOne ConcChain ConcNeverToClosed LiveRegistrationKept ConcClosedRemoved"
+
+
+def write_conc_cfg(path, c, emit, deviations=GEN_DEVIATIONS):
+    with open(path, "w") as f:
+        f.write(f"""SPECIFICATION CSpec
+CONSTANTS
+  Ls = {c['Ls']}
+  Ssrcs = {c['Ssrcs']}
+  Pts = {c['Pts']}
+  Mids = {c['Mids']}
+  Rids = {c['Rids']}
+  ExtCfgs <- {c['Ext']}
+  MaxLen = {c['MaxLen']}
+  MaxInner = {c['Inner']}
+  Extras = {c.get('Extras', '{}')}
+  Deviations = {deviations}
+VIEW cview
+INVARIANTS CTypeOK
+PROPERTIES {CONC_PROPS}
+ACTION_CONSTRAINT {'EmitConc' if emit else 'NoEmit'}
+CHECK_DEADLOCK FALSE
+""")
+
+
 BRIDGE_CFG = {
     "quick": [
         ("one-source/len4", dict(Sources="SrcOne", PtAlpha="{0, 101}", Tables="TablesQuick", StartTs="StartWrap",
@@ -142,7 +183,7 @@ CHECK_DEADLOCK FALSE
 def sig_of(sub, d):
     cls = d.get("cls") or {}
     s = {"sub": sub, "rule": d.get("rule"), "field": d.get("field")}
-    if sub == "demux":
+    if sub in ("demux", "conc"):
         s.update(by=cls.get("by"), closedHit=cls.get("closedHit"), ambiguousPt=(cls.get("holders", 0) >= 2),
                  identified=cls.get("identified"), fullHit=bool(cls.get("fullHit")))
     else:
@@ -214,6 +255,8 @@ def tlc_jobs(tier):
     jobs = []
     for label, consts in DEMUX_CFG[tier]:
         jobs.append(dict(sub="demux", label=label, consts=consts, module="MC_Demux", tagname="EDGE"))
+    for label, consts in CONC_CFG[tier]:
+        jobs.append(dict(sub="conc", label=label, consts=consts, module="MC_DemuxConc", tagname="EDGE"))
     for label, consts in BRIDGE_CFG[tier]:
         jobs.append(dict(sub="bridge", label=label, consts=consts, module="MC_Bridge", tagname="CASE"))
     return jobs
@@ -225,6 +268,8 @@ def run_tlc_job(ck, tier, j):
     cfg = os.path.join(vlib.SPEC, f"{j['module']}_{PID}_{tier}_{tag}.gen.cfg")
     if j["sub"] == "demux":
         write_demux_cfg(cfg, j["consts"], emit=True)
+    elif j["sub"] == "conc":
+        write_conc_cfg(cfg, j["consts"], emit=True)
     else:
         write_bridge_cfg(cfg, j["consts"], emit=True)
     j["out"] = os.path.join(ck.dir, f"{j['sub']}_{tier}_{tag}.ndjson")
@@ -252,14 +297,15 @@ def consume(ck, tier, j, nontrivial):
         if res.get("timeout") or res["errors"] or res["rc"] != 0:
             vlib.tlc_ok(res, f"{sub} {label}")   # raises ToolError with TLC's output
         ck.add_tlc(res, f"{sub} {label}")
-        rows = run_sharded(sub, path, os.path.join(ck.dir, f"{sub}_replay_{tier}_{tag}"), NSHARD,
+        mode = "bridge" if sub == "bridge" else "demux"      # conc histories are replayed by the demux mode
+        rows = run_sharded(mode, path, os.path.join(ck.dir, f"{sub}_replay_{tier}_{tag}"), NSHARD,
                            timeout=5400 if tier == "thorough" else 2400, hashes=nontrivial)
         summ = absorb(ck, sub, rows)
-        emitted = res["counts"]["EDGE" if sub == "demux" else "CASE"]
-        if sub == "demux":
+        emitted = res["counts"]["CASE" if sub == "bridge" else "EDGE"]
+        if sub != "bridge":
             n = summ.get("edges", 0)
             complete = summ.get("lines", 0) == emitted
-            ck.notes.append(f"demux {label}: lines={summ.get('lines')} edges={n} steps={summ.get('steps')} "
+            ck.notes.append(f"{sub} {label}: lines={summ.get('lines')} edges={n} steps={summ.get('steps')} "
                             f"deliveries={summ.get('deliveries')} panics={summ.get('panics')} "
                             f"exact-choice drift={summ.get('drift')}")
         else:
@@ -273,8 +319,8 @@ def consume(ck, tier, j, nontrivial):
             for i, line in enumerate(f):
                 if i % 20011 == 7 and len(ck.cov["samples"]) < 12:
                     e = json.loads(line)
-                    if sub == "demux" and "probes" not in e:
-                        ck.cov["samples"].append({"sub": "demux", "gen": label, "pre": e["pre"], "act": e["act"],
+                    if sub != "bridge" and "probes" not in e:
+                        ck.cov["samples"].append({"sub": sub, "gen": label, "pre": e["pre"], "act": e["act"],
                                                   "allowed": e["exp"], "model": e["ext"], "cls": e["cls"]})
                     elif sub == "bridge":
                         ck.cov["samples"].append({"sub": "bridge", "gen": label, "cfg": e["cfg"], "steps": e["steps"]})
@@ -348,7 +394,9 @@ def run(tier):
     ck.assumptions += [
         "bounded: listeners/SSRCs/PTs/MIDs/RIDs and history length as listed in tlc_runs; larger registries are not explored",
         "exhaustive refers to the bounded G-edge / G-bounded runs; the simulation passes are random samples (seeded)",
-        "RtpTransport.receive is called sequentially (one socket read loop per connection); no concurrent registration",
+        "RtpTransport.receive is called from one read loop (no two concurrent receive calls); registry calls racing with it "
+        "are executed at its two scheduling points (after the selection, before the closed-listener clean-up) - the only "
+        "places where the registry lock is released inside receive()",
         "clear RTP mode (no SRTP session, srtp_required = false); the SRTP gate is property C14",
         "listener channels are drained after every step unless the scenario filled one (Fill/Drain actions, bounded configs)",
         "demux: 'nothing delivered' is read from the listener channels right after the awaited receive() returns (no timeout)",
@@ -367,7 +415,8 @@ def replay(path):
     sub = rec["signature"].get("sub", "demux")
     ep = os.path.join(ck.dir, f"replay_one.{os.getpid()}.ndjson")
     vlib.write_ndjson(ep, [case])
-    rows = run_sharded(sub, ep, os.path.join(ck.dir, f"replay_one_out.{os.getpid()}"), 1, timeout=300)
+    rows = run_sharded("bridge" if sub == "bridge" else "demux", ep,
+                       os.path.join(ck.dir, f"replay_one_out.{os.getpid()}"), 1, timeout=300)
     os.remove(ep)
     summ = absorb(ck, sub, rows)
     ck.cov.update(states=1, transitions=1, traces_validated_against_impl=summ.get("edges", summ.get("cases", 0)),
@@ -390,6 +439,13 @@ def selftest():
         hit = any(any(p in e for p in props) for e in res["errors"])
         print(f"selftest: Demux model with Deviations = {dev} violates {'/'.join(props)}: {hit}")
         ok = ok and hit
+    cfg = os.path.join(vlib.SPEC, f"MC_DemuxConc_{PID}_selftest.{os.getpid()}.gen.cfg")
+    write_conc_cfg(cfg, dict(CONC_CFG["quick"][0][1], MaxLen=7), emit=False, deviations='{"RemoveSsrcUnconditional"}')
+    res = vlib.tlc("MC_DemuxConc", os.path.basename(cfg), timeout=900, workers=6, tag="MC_DemuxConc_C19_selftest")
+    os.remove(cfg)
+    hit = any("LiveRegistrationKept" in e for e in res["errors"])
+    print(f"selftest: DemuxConc model with Deviations = {{RemoveSsrcUnconditional}} violates LiveRegistrationKept: {hit}")
+    ok = ok and hit
     vlib.build_harness([BIN])
     d = vlib.outdir(PID)
     # (ii) demux: claim that an SSRC-bound packet must be dropped
